@@ -87,3 +87,19 @@ func TestFindAggCalls(t *testing.T) {
 		}
 	}
 }
+
+func TestNormalizeTriggerPredicate_Not(t *testing.T) {
+	cases := []struct{ in, want string }{
+		{"NOT (COUNT(*) < 3)", "not (COUNT(*) < 3)"},
+		{"Not(a) AND not (b)", "not(a) && not (b)"},
+		{"x NOT in [1, 2]", "x not in [1, 2]"},
+		// not a keyword: part of a name, or quoted
+		{"NOTE > 1 AND KNOT > 2", "NOTE > 1 && KNOT > 2"},
+		{"state == 'NOT'", "state == 'NOT'"},
+	}
+	for _, c := range cases {
+		if got := normalizeTriggerPredicate(c.in); got != c.want {
+			t.Errorf("normalizeTriggerPredicate(%q) = %q, want %q", c.in, got, c.want)
+		}
+	}
+}
